@@ -101,6 +101,20 @@ def is_pure(expr):
     return all(isinstance(n, PURE) for n in ast.walk(expr))
 
 
+def element_value(d, name):
+    """The expression assigned to ``name`` by definition ``d``: the value itself for `name = v`, the matching element for
+    `a, name = (x, y)`; None when it cannot be told."""
+    if d.kind != "assign" or d.value is None:
+        return None
+    if isinstance(d.target, ast.Name):
+        return d.value
+    if isinstance(d.target, (ast.Tuple, ast.List)) and isinstance(d.value, (ast.Tuple, ast.List)) and len(d.target.elts) == len(d.value.elts):
+        for t, v in zip(d.target.elts, d.value.elts):
+            if isinstance(t, ast.Name) and t.id == name:
+                return v
+    return None
+
+
 def resolve(fn, expr, at=None, depth=3):
     """Replace a local name that has exactly one reaching pure definition by that definition."""
     if depth == 0 or not isinstance(expr, ast.Name):
@@ -108,8 +122,10 @@ def resolve(fn, expr, at=None, depth=3):
     if comprehension_binding(fn, expr.id, expr):
         return expr
     ds = defs_reaching(fn, expr.id, at if at is not None else expr)
-    if len(ds) == 1 and ds[0].kind == "assign" and ds[0].value is not None and isinstance(ds[0].target, ast.Name) and is_pure(ds[0].value):
-        return resolve(fn, ds[0].value, ds[0].node.ast if ds[0].node is not None else at, depth - 1)
+    if len(ds) == 1:
+        v = element_value(ds[0], expr.id)
+        if v is not None and is_pure(v):
+            return resolve(fn, v, ds[0].node.ast if ds[0].node is not None else at, depth - 1)
     return expr
 
 
@@ -165,7 +181,7 @@ def is_pure_call_free(expr, var):
     return True
 
 
-def expand(fn, expr, at, depth=4):
+def expand(fn, expr, at, depth=4, keep=()):
     """``expr`` with every single-assignment local temporary replaced by the expression it was assigned -- calls
     included (na = self.is_na(); array = np.where(na, None, self); array.tolist()  ->  np.where(self.is_na(), None,
     self).tolist()).  A temporary is substituted only when it has exactly one reaching definition and none of the names
@@ -204,13 +220,13 @@ def expand(fn, expr, at, depth=4):
     # names must be looked up at their original positions: work on the original nodes, copy on substitution
     mapping = {}
     for n in ast.walk(expr):
-        if isinstance(n, ast.Name) and isinstance(n.ctx, ast.Load) and not comprehension_binding(fn, n.id, n):
+        if isinstance(n, ast.Name) and isinstance(n.ctx, ast.Load) and n.id not in keep and not comprehension_binding(fn, n.id, n):
             ds = defs_reaching(fn, n.id, at)
             if len(ds) == 1 and ds[0].kind == "assign" and ds[0].value is not None and isinstance(ds[0].target, ast.Name) \
                     and ds[0].node is not None and not any(isinstance(x, (ast.Yield, ast.YieldFrom, ast.Await, ast.NamedExpr))
                                                           for x in ast.walk(ds[0].value)) \
                     and same_bindings(ds[0].value, ds[0].node.ast, at):
-                mapping[id(n)] = expand(fn, ds[0].value, ds[0].node.ast, depth - 1) if depth > 1 else copy.deepcopy(ds[0].value)
+                mapping[id(n)] = expand(fn, ds[0].value, ds[0].node.ast, depth - 1, keep) if depth > 1 else copy.deepcopy(ds[0].value)
     if not mapping:
         return expr
     new = copy_with_ids(expr, mapping)
